@@ -32,7 +32,7 @@ add("C12", "exploration",
 
 add("C02", "fault_enumeration",
     "single-fault transcript mutator between the simulated BMC and the real handshake; oracle = (nil, error) and the named sentinel error",
-    "Exhaustive per authentication algorithm over every bit of the authenticated RAKP 2 fields, the BMC session ID (with a man in the middle), the RAKP 4 ICV, every status and wrong tag in the three replies and every truncation, plus wrong password / KG.",
+    "Exhaustive per authentication algorithm over every bit of the authenticated RAKP 2 fields, the BMC session ID (with a man in the middle), the RAKP 4 ICV, every status and wrong tag in the three replies and every truncation, on fresh and on previously used connections, plus wrong password and nine kinds of KG mismatch incl. every single-bit difference.",
     "Trusted base: refbmc handshake; replies delivered as the production transport would (window into a reused buffer).",
     "DESIGN.md 5/C02")
 
@@ -44,19 +44,19 @@ add("C03", "exploration",
 
 add("C04", "fault_enumeration",
     "forgery catalogue and exhaustive bit-flip/truncation injection on authentic replies, with and without the session keys; oracle = error or authentic value after the authentic datagram",
-    "Every catalogue item x nine suites x three commands in two delivery modes; every single-bit flip (thorough) and every truncation of the authentic reply.",
+    "Every catalogue item (incl. ten wrong session IDs) x nine suites x three commands in two delivery modes; every completion code on seven unsigned/misaddressed forgery kinds; every single-bit flip (thorough) and every truncation of the authentic reply.",
     "Forged packets carry a different body so acceptance is visible; RMCP header bits are outside the authenticated range.",
     "DESIGN.md 5/C04")
 
 add("C09", "fault_enumeration",
     "sequence monitor over datagrams recorded at the transport boundary, in transmission order, under scripted per-attempt outcomes",
-    "Exhaustive outcome sequences for histories of 1..3 commands to the stated depths plus long random histories with session-less commands and unserialisable requests; monitor: SID and sequence == transmission index, session counter == datagrams transmitted.",
+    "Exhaustive outcome sequences for histories of 1..3 commands to the stated depths plus long random histories with session-less commands, unserialisable requests, calls with a finished context, give-ups and new handshakes; monitor: SID and sequence == transmission index, session counter == datagrams transmitted.",
     "Scripted BMC; zero back-off through the hook.",
     "DESIGN.md 5/C09")
 
 add("C10", "fault_enumeration",
     "executable reference model of the documented retry contract compared with transmissions counted at the transport and BMC-verified retransmission content",
-    "Every outcome sequence retry^k.terminal (k<=4 session-less, <=3 in-session; thorough 6/5) for 10 commands, context cancellation at every step, retry sequences on each handshake payload.",
+    "Every outcome sequence retry^k.terminal (k<=4 session-less, <=3 in-session; thorough 6/5) over busy, timeout code, six kinds of undecodable reply, lost reply and refused connection for 10 commands; every completion code; context cancellation at every step; retry sequences on each handshake payload; recorded attempt deadlines must advance after a lost reply.",
     "Model assumptions are listed in the evidence; back-off timing not asserted.",
     "DESIGN.md 5/C10")
 
@@ -98,13 +98,13 @@ add("C16", "exploration",
 
 add("C17", "exploration",
     "differential reuse monitor: used layer/connection vs fresh one, deep comparison of exported fields by value",
-    "Ordered pairs of valid encodings per layer covering all branch combinations; every ordered pair of 12 commands x 6 first-command outcomes x {session-less, in-session} against a fresh connection.",
-    "Accepted-but-invalid inputs are observations only.",
+    "Ordered pairs of valid encodings per layer covering all branch combinations, plus every truncation and small mutations as later inputs; every ordered pair of 12 commands x 6 first-command outcomes x {session-less, in-session} against a fresh connection; cipher-suite discovery histories with failures part-way.",
+    "Whatever a decoder accepts must decode identically into a used and a fresh value; sampled.",
     "DESIGN.md 5/C17")
 
 add("C13", "fault_enumeration",
     "wall-clock overshoot monitor over real UDP with a scheduler-lateness canary + logical monitor of every attempt context's deadline at the in-memory transport",
-    "Five fault patterns from each of twelve steps of the blocking calls with three timeout:deadline ratios (quick: one third of the grid, rotating with the seed; thorough: all plus extra ratios), already-expired contexts, and the load-independent attempt-deadline invariants.",
+    "Six fault patterns (incl. datagrams ending in long 0xFF runs) from each of thirteen steps of the blocking calls (incl. a wrong-password handshake) with three timeout:deadline ratios (quick: one third of the grid, rotating with the seed; thorough: all plus extra ratios), already-expired contexts, and the load-independent attempt-deadline invariants.",
     "250 ms scheduling allowance; canary lateness > 100 ms makes a case inconclusive (repeated up to three times), never a violation.",
     "DESIGN.md 5/C13")
 
